@@ -69,6 +69,15 @@ Theorem C11_min_levels_conservative : forall (levels : list (level (T:=R))) rho,
 Proof. exact min_levels_conservative. Qed.
 Print Assumptions C11_min_levels_conservative.
 
+(** find_safety(max_step), the overload used by multiple scattering *)
+Theorem C11_find_safety_max_conservative : forall (levels : list (level (T:=R))) m rho,
+  (forall l, In l levels -> faces_ok (lv_faces l) (lv_pos l)) ->
+  find_safety_max levels m = Some rho ->
+  (forall l, In l levels -> forall s, In s (lv_faces l) -> ball_clear s (lv_pos l) rho) /\
+  find_safety levels = Some rho.
+Proof. exact find_safety_max_conservative. Qed.
+Print Assumptions C11_find_safety_max_conservative.
+
 Theorem C11_zero_is_conservative : forall faces p s,
   volume_safety false faces p = Some 0 /\ ball_clear s p 0.
 Proof. exact zero_is_conservative. Qed.
